@@ -509,10 +509,17 @@ def fmt(gs) -> str:
 def check_c07_d1(ctx, rm: REModel, eng: Engine | None = None) -> Engine:
     eng = eng or Engine(rm)
     # atomicity of the request coroutines
+    atomic = True
     for name, f in eng.req_funcs.items():
         aw = [n for n in A.walk_local(f.node) if isinstance(n, ast.Await)]
+        atomic = atomic and not aw
         ctx.ob("C07.D1-request-atomic", cname(f, None, "no await in the request coroutine"), not aw,
                "" if not aw else f"`{A.short(aw[0])}` makes the request non-atomic with respect to _run", where=where(f, f.node))
+    if not atomic:
+        # the thread-modular model (requests as atomic summaries) does not apply; the failed
+        # atomicity obligation above is the verdict
+        eng.IN, eng.cfg = {}, eng.cfg_of(rm.run)
+        return eng
     eng.run_main()
     n_ob = 0
     for key, o in sorted(eng.obligations.items(), key=lambda kv: (kv[0][0], getattr(kv[1]["stmt"], "lineno", 0))):
